@@ -37,10 +37,11 @@ type Inv struct {
 type Tap struct {
 	Net *simnet.Net
 
-	mu   sync.Mutex
-	invs []*Inv
-	base int // number of invocations already dropped from invs (memory bound for long runs)
-	seq  int
+	mu        sync.Mutex
+	invs      []*Inv
+	bodyBytes int
+	base      int // number of invocations already dropped from invs (memory bound for long runs)
+	seq       int
 
 	// Recover: handler panics are recovered and recorded (C14) instead of
 	// killing the process.
@@ -83,6 +84,18 @@ func (t *Tap) Count() int {
 // maxKept bounds the invocation log: indices stay monotonic (Count/Since), old
 // entries are dropped.
 const maxKept = 20000
+
+// maxBodyBytes bounds the request bodies retained with the log in the same way.
+const maxBodyBytes = 32 << 20
+
+// Release drops everything recorded (a server that was stopped; indices stay monotonic).
+func (t *Tap) Release() {
+	t.mu.Lock()
+	t.base += len(t.invs)
+	t.invs = nil
+	t.bodyBytes = 0
+	t.mu.Unlock()
+}
 
 // CountConn returns the number of invocations on one connection.
 func (t *Tap) CountConn(conn int) int {
@@ -155,8 +168,12 @@ func (m *monHandler) Handle(resp tq.Response, req tq.Request) {
 	}
 	t.mu.Lock()
 	t.invs = append(t.invs, inv)
-	if len(t.invs) > maxKept {
-		drop := len(t.invs) - maxKept/2
+	t.bodyBytes += len(inv.Body)
+	if len(t.invs) > maxKept || (t.bodyBytes > maxBodyBytes && len(t.invs) > 64) {
+		drop := len(t.invs) / 2
+		for _, old := range t.invs[:drop] {
+			t.bodyBytes -= len(old.Body)
+		}
 		t.invs = append([]*Inv{}, t.invs[drop:]...)
 		t.base += drop
 	}
